@@ -115,6 +115,15 @@ check("C07", "fault_enumeration",
       "atomicity of a single rename(2)/open(O_EXCL) assumed from POSIX; interleavings at the granularity of interposed Python-level calls; actors are threads with separate objects sharing only the directory",
       "DESIGN.md §5 C07")
 
+check("C08", "exploration",
+      "runtime linearizability monitoring: histories of ref operations by 2-3 actors, interleaved by a deterministic scheduler at interposed system-call granularity (all schedules within a preemption bound, DFS), recorded at the client boundary with unique values and checked by exhaustive search against a sequential ref map; commit races judged by ancestry of the final tip",
+      "All pairs over {cas, cas via HEAD, stale cas, add_if_new, remove_if_equals, set, delete, pack_refs, read, read via HEAD, read of another "
+      "ref} x initial state {loose, packed, both, absent} and 5 triples: every schedule with <=2 preemptions (thorough 3) on the ref paths; "
+      "operations that raise must linearise as no-ops; final state read through a fresh container. WorkTree.commit/do_commit races: every "
+      "commit id returned without exception must be an ancestor of the final tip.",
+      "interleavings at the granularity of interposed Python-level calls on refs/, HEAD, packed-refs*, *.lock; kernel atomicity of rename/O_EXCL assumed; actors are threads with separate container objects",
+      "DESIGN.md §5 C08")
+
 ALL = ["C%02d" % i for i in range(1, 21)]
 
 
